@@ -24,6 +24,7 @@ fn main() {
     let op = a[4].clone();
     let ids: serde_json::Value =
         serde_json::from_slice(&std::fs::read(&a[5]).unwrap()).unwrap();
+    let server_dir_arg: Option<String> = ids.get("server_dir").and_then(|v| v.as_str()).map(|s| s.to_string());
     let vid = |k: &str| -> VaultId { ids[k].as_str().unwrap().parse().unwrap() };
     let sid = |k: &str| -> SecretId { ids[k].as_str().unwrap().parse().unwrap() };
     let rt = tokio::runtime::Builder::new_current_thread()
@@ -36,6 +37,25 @@ fn main() {
         let mut dev = Dev::open(&dir, backend, account_id, vkit::acct::password())
             .await
             .expect("open");
+        if op.starts_with("sync_") {
+            // a real in-process server on the prepared server directory;
+            // only effects under the client's data directory are replayed
+            let server_dir = PathBuf::from(server_dir_arg.clone().unwrap());
+            let server = vkit::world::start_server(&server_dir, false, None, None)
+                .await
+                .expect("server");
+            let device = vkit::world::Device::connect(dev, 1, &server.origin)
+                .await
+                .expect("connect");
+            marker("BEGIN");
+            let r = device.sync().await;
+            marker("END");
+            if r != vkit::world::SyncResult::Ok {
+                eprintln!("crashdrv: sync did not succeed: {:?}", r);
+                unsafe { libc::_exit(3) };
+            }
+            unsafe { libc::_exit(0) };
+        }
         let acc = &mut dev.account;
         let default = vid("default");
         let f1 = vid("f1");
@@ -87,6 +107,10 @@ fn main() {
                         )),
                     )
                     .await?;
+                }
+                "sync_pull" | "sync_merge" => {
+                    // handled below (needs the account moved into a device)
+                    unreachable!()
                 }
                 other => anyhow::bail!("unknown op {}", other),
             }
